@@ -1229,15 +1229,32 @@ fn hvar_section(cx: &mut Ctx) {
                     cx.cw.push(format!("CMetric {} {} {}", base_adv, cz(d_adv as i128), cz(adv.map(|a| (a as f64 * 65536.0) as i128).unwrap_or(-999999))));
                 }
                 cx.st.count(if d_adv.abs() >= 32768 { "hvar.delta-beyond-16-bit" } else { "hvar.delta-16-bit" });
-                // unscaled results of magnitude >= 32768 do not fit the 16.16 scaling arithmetic: separate key
-                let keyp = if d_adv.abs() >= 32768 || d_lsb.abs() >= 32768 { "hvar-large-delta" } else if div == 1.0 && (want_adv.abs() >= 32768 || want_lsb.abs() >= 32768) { "hvar-unscaled-large-value" } else { "hvar" };
+                // known 16.16 range limits get their own keys, decided per metric: a delta of magnitude >= 32768
+                // (Fixed::from_i32 wraps), or an unscaled value of magnitude >= 32768 (identity scale overflows);
+                // every other failure is keyed hvar-advance / hvar-lsb
+                let key_for = |d: i64, want: i64, which: &str| -> String {
+                    if d.abs() >= 32768 {
+                        format!("hvar-large-delta-{}", which)
+                    } else if div == 1.0 && want.abs() >= 32768 {
+                        format!("hvar-unscaled-large-value-{}", which)
+                    } else {
+                        format!("hvar-{}", which)
+                    }
+                };
                 if adv != Some(want_adv as f32 / div) {
-                    cx.st.count(&format!("fail.{}-advance.{}", keyp, sname));
-                    cx.st.oracle_failure(json!({"key": format!("{}-advance", keyp), "what": "advance is not base + delta from HVAR", "size": sname, "gid": gid, "coord": c, "base": base_adv, "delta": d_adv, "want": want_adv as f32 / div, "got": format!("{:?}", adv), "implicit": implicit}));
+                    let key = key_for(d_adv, want_adv, "advance");
+                    cx.st.count(&format!("fail.{}.{}", key, sname));
+                    // the list of recorded failures is capped: keep a few per key so that a different key cannot be crowded out
+                    if *cx.st.counters.get(&format!("fail.{}.{}", key, sname)).unwrap_or(&0) <= 3 {
+                    cx.st.oracle_failure(json!({"key": key, "what": "advance is not base + delta from HVAR", "size": sname, "gid": gid, "coord": c, "base": base_adv, "delta": d_adv, "want": want_adv as f32 / div, "got": format!("{:?}", adv), "implicit": implicit}));
+                    }
                 }
                 if lsb != Some(want_lsb as f32 / div) {
-                    cx.st.count(&format!("fail.{}-lsb.{}", keyp, sname));
-                    cx.st.oracle_failure(json!({"key": format!("{}-lsb", keyp), "what": "left side bearing is not base + delta from HVAR", "size": sname, "gid": gid, "coord": c, "base": base_lsb, "delta": d_lsb, "want": want_lsb as f32 / div, "got": format!("{:?}", lsb), "implicit": implicit}));
+                    let key = key_for(d_lsb, want_lsb, "lsb");
+                    cx.st.count(&format!("fail.{}.{}", key, sname));
+                    if *cx.st.counters.get(&format!("fail.{}.{}", key, sname)).unwrap_or(&0) <= 3 {
+                    cx.st.oracle_failure(json!({"key": key, "what": "left side bearing is not base + delta from HVAR", "size": sname, "gid": gid, "coord": c, "base": base_lsb, "delta": d_lsb, "want": want_lsb as f32 / div, "got": format!("{:?}", lsb), "implicit": implicit}));
+                    }
                 }
             }
             }
